@@ -15,7 +15,18 @@
 //!       `S:<el>,<el>,..[,$<ms>]` service returns a stream; `el` = `i<id>[@ms]` (item) or
 //!                                `e<id>[@ms]` (error); `@ms` = delay before the element,
 //!                                `$<ms>` = delay before the end of the stream (T mode only)
+//!   `R <services> <schedule>`  as `P`, but the REAL resolve plumbing consumes the stream: a real
+//!                              `RemoteStateActor` state (hook `ResolveDriver`) gets a resolve request
+//!                              with no known path; each schedule step delivers as in `P` and then runs
+//!                              the actor's `address_lookup_stream` arm once.  Items carry content:
+//!                              `i<id>[w][=a.b.c]` = for the wrong endpoint id / address ids (C22's
+//!                              encoding: kind = a % 4: IPv4, IPv6, custom, relay)
+//!   `RT <services>`            as `T` (paused time, delays <= 30 ms), the actor's stream arm is run
+//!                              every virtual millisecond until the lookup is over
 //! output:
+//!   R: per step `<X|P|I|FO|FNS|FNR>[+ok|+NS|+NR[ids]]` (what the arm did, and the answer the connect
+//!      received during it), then ` | paths=<n> lookup=<0|1> pending=<n>`
+//!   RT: `<ms>:<I|FO|FNS|FNR>,.. | ans=<ms>:<ok|NS|NR[ids]> | paths=.. lookup=.. pending=..`
 //!   P: comma-separated poll results: `P` pending, `i<id>`, `e<id>`, `NR[<id>.<id>..]`, `NS`, `end`
 //!   T: `<ms>:<result>` up to and including the first `end`, then two bare results.  Results that
 //!      became available at the same virtual instant are ordered by (service, position) — the
@@ -31,7 +42,8 @@ use std::time::Duration;
 use iroh::address_lookup::{
     AddressLookup, AddressLookupFailed, AddressLookupServices, EndpointData, EndpointInfo, Error as LookupError, Item,
 };
-use iroh_base::{EndpointId, SecretKey};
+use iroh::verif_hooks::remote_state::{LookupPoll, ResolveDriver};
+use iroh_base::{CustomAddr, EndpointAddr, EndpointId, RelayUrl, SecretKey, TransportAddr};
 use n0_future::boxed::BoxStream;
 use n0_future::{Stream, StreamExt};
 use tokio::sync::mpsc;
@@ -91,8 +103,36 @@ fn eid() -> EndpointId {
     SecretKey::from_bytes(&[7u8; 32]).public()
 }
 
+fn other_eid() -> EndpointId {
+    SecretKey::from_bytes(&[8u8; 32]).public()
+}
+
+/// C22's address encoding: kind = a % 4 (IPv4, IPv6, custom, relay).
+fn transport_addr(a: u64) -> TransportAddr {
+    use std::net::{Ipv4Addr, Ipv6Addr, SocketAddr};
+    let n = a / 4;
+    let port = (n % 60000) as u16 + 1;
+    let hi = (n / 60000) as u8;
+    match a % 4 {
+        0 => TransportAddr::Ip(SocketAddr::new(Ipv4Addr::new(10, 0, hi, 1).into(), port)),
+        1 => TransportAddr::Ip(SocketAddr::new(Ipv6Addr::new(0xfd00, 0, 0, 0, 0, 0, hi as u16, 1).into(), port)),
+        2 => TransportAddr::Custom(format!("7_{n:08x}").parse::<CustomAddr>().expect("custom addr")),
+        _ => TransportAddr::Relay(format!("https://r{n}.relay.test").parse::<RelayUrl>().expect("relay url")),
+    }
+}
+
+thread_local! {
+    /// R modes: what each item carries (address ids, wrong endpoint id).
+    static CONTENT: std::cell::RefCell<std::collections::HashMap<u64, (Vec<u64>, bool)>> = std::cell::RefCell::new(Default::default());
+}
+
 fn to_result(r: Res) -> Result<Item, LookupError> {
     match r {
+        Res::Item(id) if CONTENT.with(|c| c.borrow().contains_key(&id)) => {
+            let (addrs, wrong) = CONTENT.with(|c| c.borrow()[&id].clone());
+            let ea = EndpointAddr::from_parts(if wrong { other_eid() } else { eid() }, addrs.iter().map(|a| transport_addr(*a)));
+            Ok(Item::new(EndpointInfo::from(ea), "verif", Some(id)))
+        }
         Res::Item(id) => Ok(Item::new(EndpointInfo::from_parts(eid(), EndpointData::default()), "verif", Some(id))),
         Res::Err(id) => Err(LookupError::from_err("verif", std::io::Error::other(format!("verif-err-{id}-")))),
     }
@@ -255,6 +295,183 @@ fn parse_elem(s: &str) -> Option<(u64, Res)> {
         "i" => Some((delay, Res::Item(id))),
         "e" => Some((delay, Res::Err(id))),
         _ => None,
+    }
+}
+
+/// R modes: `i<id>[w][=a.b.c][@ms]` / `e<id>[@ms]`.
+fn parse_elem_r(s: &str) -> Option<(u64, Res, Vec<u64>, bool)> {
+    let (body, delay) = match s.split('@').collect::<Vec<_>>()[..] {
+        [b] => (b, 0u64),
+        [b, d] => (b, parse_nat(d)?),
+        _ => return None,
+    };
+    let (head, addrs) = match body.split('=').collect::<Vec<_>>()[..] {
+        [h] => (h, Some(vec![])),
+        [h, a] => (h, a.split('.').map(parse_nat).collect::<Option<Vec<u64>>>()),
+        _ => return None,
+    };
+    let addrs = addrs?;
+    let (kind, rest) = head.split_at_checked(1)?;
+    match kind {
+        "i" => {
+            let (digits, wrong) = match rest.strip_suffix('w') {
+                Some(d) => (d, true),
+                None => (rest, false),
+            };
+            Some((delay, Res::Item(parse_nat(digits)?), addrs, wrong))
+        }
+        "e" if !body.contains('=') => Some((delay, Res::Err(parse_nat(rest)?), vec![], false)),
+        _ => None,
+    }
+}
+
+type Content = std::collections::HashMap<u64, (Vec<u64>, bool)>;
+
+fn parse_services_r(s: &str) -> Option<(Vec<SvcSpec>, Content)> {
+    let mut content = Content::new();
+    if s == "-" {
+        return Some((vec![], content));
+    }
+    let mut out = Vec::new();
+    for sv in s.split('/') {
+        if sv == "D" {
+            out.push(SvcSpec { stream: None });
+            continue;
+        }
+        let body = sv.strip_prefix("S:")?;
+        let mut toks: Vec<&str> = if body.is_empty() { vec![] } else { body.split(',').collect() };
+        let mut end_delay = 0;
+        if let Some(l) = toks.last() {
+            if let Some(d) = l.strip_prefix('$') {
+                end_delay = parse_nat(d)?;
+                toks.pop();
+            }
+        }
+        let mut els = Vec::new();
+        for t in toks {
+            let (d, r, addrs, wrong) = parse_elem_r(t)?;
+            if let Res::Item(id) = r {
+                // the first occurrence of an id defines its content (as in the model)
+                content.entry(id).or_insert((addrs, wrong));
+            }
+            els.push((d, r));
+        }
+        out.push(SvcSpec { stream: Some((els, end_delay)) });
+    }
+    Some((out, content))
+}
+
+fn kind_tok(k: LookupPoll) -> &'static str {
+    match k {
+        LookupPoll::NotRunning => "X",
+        LookupPoll::Pending => "P",
+        LookupPoll::Item => "I",
+        LookupPoll::FinishedOk => "FO",
+        LookupPoll::FinishedNoService => "FNS",
+        LookupPoll::FinishedNoResults => "FNR",
+    }
+}
+
+/// What the connect was told.
+#[derive(Clone, Debug, PartialEq, Eq)]
+enum Reply {
+    Ok,
+    NoService,
+    NoResults(Vec<u64>),
+    Other(String),
+    Dropped,
+}
+
+impl Reply {
+    fn tok(&self) -> String {
+        match self {
+            Reply::Ok => "ok".into(),
+            Reply::NoService => "NS".into(),
+            Reply::NoResults(es) => format!("NR[{}]", es.iter().map(|e| e.to_string()).collect::<Vec<_>>().join(".")),
+            Reply::Other(s) => format!("other:{s}"),
+            Reply::Dropped => "dropped".into(),
+        }
+    }
+}
+
+fn take_reply(rx: &mut tokio::sync::oneshot::Receiver<Result<(), AddressLookupFailed>>) -> Option<Reply> {
+    use tokio::sync::oneshot::error::TryRecvError;
+    match rx.try_recv() {
+        Ok(Ok(())) => Some(Reply::Ok),
+        Ok(Err(AddressLookupFailed::NoServiceConfigured { .. })) => Some(Reply::NoService),
+        Ok(Err(AddressLookupFailed::NoResults { errors, .. })) => {
+            Some(match errors.iter().map(err_id).collect::<Option<Vec<u64>>>() {
+                Some(ids) => Reply::NoResults(ids),
+                None => Reply::Other("foreign-error".into()),
+            })
+        }
+        Ok(Err(_)) => Some(Reply::Other("unknown-failure".into())),
+        Err(TryRecvError::Empty) => None,
+        Err(TryRecvError::Closed) => Some(Reply::Dropped),
+    }
+}
+
+/// Oracle for the R modes, on what was delivered and what the connect received.
+/// `events`: per run of the stream arm: (what it did, elements delivered to the merge since the
+/// previous run, reply received during it).
+fn check_resolve(ex: &mut Exec, svcs: &[SvcSpec], content: &Content, events: &[(LookupPoll, Vec<Res>, Option<Reply>)]) {
+    let usable = |r: &Res| match r {
+        Res::Item(id) => content.get(id).is_some_and(|(a, w)| !*w && !a.is_empty()),
+        Res::Err(_) => false,
+    };
+    let mut seen_usable = false;
+    let mut seen_item = false;
+    let mut errs: Vec<u64> = Vec::new();
+    let mut answered: Option<Reply> = None;
+    for (i, (kind, delivered, reply)) in events.iter().enumerate() {
+        let usable_now = delivered.iter().any(usable);
+        for r in delivered {
+            match r {
+                Res::Item(_) => seen_item = true,
+                Res::Err(e) => errs.push(*e),
+            }
+        }
+        let finished = matches!(kind, LookupPoll::FinishedOk | LookupPoll::FinishedNoService | LookupPoll::FinishedNoResults);
+        if let Some(r) = reply {
+            if answered.is_some() {
+                ex.violation("answered-twice", format!("run #{i}"));
+            }
+            match r {
+                Reply::Ok => {
+                    if !(usable_now && !seen_usable) {
+                        ex.violation("ok-without-first-usable-item", format!("run #{i}"));
+                    }
+                }
+                Reply::NoService | Reply::NoResults(_) => {
+                    if !finished {
+                        ex.violation("failed-before-stream-end", format!("run #{i}: {} while the stream has not ended", r.tok()));
+                    }
+                    if seen_usable || usable_now {
+                        ex.violation("failed-despite-usable-item", format!("run #{i}"));
+                    }
+                    let want = if svcs.is_empty() {
+                        Reply::NoService
+                    } else if seen_item {
+                        Reply::NoResults(vec![])
+                    } else {
+                        Reply::NoResults(errs.clone())
+                    };
+                    if *r != want {
+                        ex.violation("wrong-failure", format!("run #{i}: got {}, expected {}", r.tok(), want.tok()));
+                    }
+                }
+                other => ex.violation("bad-reply", other.tok()),
+            }
+            answered = Some(r.clone());
+        } else if answered.is_none() {
+            if usable_now && *kind == LookupPoll::Item {
+                ex.violation("ok-late", format!("run #{i} handled a usable item but the connect was not answered"));
+            }
+            if finished {
+                ex.violation("never-answered", format!("run #{i}: the lookup finished, the connect is still waiting"));
+            }
+        }
+        seen_usable |= usable_now;
     }
 }
 
@@ -486,6 +703,183 @@ impl C29 {
         ex.out = raw.iter().map(|g| g.tok()).collect::<Vec<_>>().join(",");
         ex.nontrivial = !delivered.is_empty() || svcs.len() > 1;
         ex.tags.push(tag_of(svcs, &raw, "P"));
+        ex
+    }
+
+    /// R mode: channel-backed services feed the real resolve plumbing.
+    fn run_resolve_sched(&self, svcs: &[SvcSpec], content: Content, sched: &[Option<usize>]) -> Exec {
+        let mut ex = Exec::default();
+        CONTENT.with(|c| *c.borrow_mut() = content.clone());
+        let rt = tokio::runtime::Builder::new_current_thread().enable_all().start_paused(true).build().unwrap();
+        let (toks, events, fin) = rt.block_on(async {
+            let reg = AddressLookupServices::default();
+            let mut senders: Vec<Option<mpsc::UnboundedSender<Res>>> = Vec::new();
+            let mut remaining: Vec<VecDeque<Res>> = Vec::new();
+            for s in svcs {
+                let c = Arc::new(AtomicUsize::new(0));
+                let a = Arc::new(AtomicUsize::new(0));
+                match &s.stream {
+                    None => {
+                        senders.push(None);
+                        remaining.push(VecDeque::new());
+                        reg.add(Svc { script: Script::Decline, resolve_calls: c, polled_after_end: a });
+                    }
+                    Some((els, _)) => {
+                        let (tx, rx) = mpsc::unbounded_channel();
+                        senders.push(Some(tx));
+                        remaining.push(els.iter().map(|x| x.1).collect());
+                        reg.add(Svc { script: Script::Chan(Mutex::new(Some(rx))), resolve_calls: c, polled_after_end: a });
+                    }
+                }
+            }
+            let mut d = ResolveDriver::new(eid(), reg);
+            let mut rx = d.resolve_remote(Default::default());
+            let mut toks: Vec<String> = Vec::new();
+            let mut events: Vec<(LookupPoll, Vec<Res>, Option<Reply>)> = Vec::new();
+            let mut answered = take_reply(&mut rx).is_some();
+            if answered {
+                toks.push("answered-by-resolve".into());
+            }
+            let steps: Vec<Option<usize>> = sched.iter().copied().chain([None, None]).collect();
+            let mut undelivered: Vec<Res> = Vec::new();
+            for st in steps {
+                if let Some(k) = st {
+                    if let Some(Some(tx)) = senders.get(k) {
+                        match remaining[k].pop_front() {
+                            Some(r) => {
+                                if tx.send(r).is_ok() {
+                                    undelivered.push(r);
+                                }
+                            }
+                            None => senders[k] = None,
+                        }
+                    }
+                }
+                let kind = d.poll_address_lookup();
+                let reply = if answered { None } else { take_reply(&mut rx) };
+                answered |= reply.is_some();
+                let delivered = if kind == LookupPoll::NotRunning { vec![] } else { std::mem::take(&mut undelivered) };
+                toks.push(match &reply {
+                    Some(r) => format!("{}+{}", kind_tok(kind), r.tok()),
+                    None => kind_tok(kind).to_string(),
+                });
+                events.push((kind, delivered, reply));
+            }
+            let fin = format!(
+                "paths={} lookup={} pending={}",
+                d.paths().len(),
+                d.address_lookup_running() as u8,
+                d.pending_resolve_requests()
+            );
+            (toks, events, fin)
+        });
+        check_resolve(&mut ex, svcs, &content, &events);
+        ex.out = format!("{} | {fin}", toks.join(","));
+        ex.nontrivial = events.iter().any(|e| !e.1.is_empty());
+        let ans = events.iter().find_map(|e| e.2.clone());
+        ex.tags.push(format!("R-{}", ans.map_or("unanswered".into(), |r| r.tok().split('[').next().unwrap().to_string())));
+        CONTENT.with(|c| c.borrow_mut().clear());
+        ex
+    }
+
+    /// RT mode: timer-backed services feed the real resolve plumbing under paused time.
+    fn run_resolve_timed(&self, svcs: &[SvcSpec], content: Content) -> Exec {
+        let mut ex = Exec::default();
+        CONTENT.with(|c| *c.borrow_mut() = content.clone());
+        let rt = tokio::runtime::Builder::new_current_thread().enable_all().start_paused(true).build().unwrap();
+        // element -> (virtual time, service, position), for the oracle and the canonical error order
+        let mut when: Vec<(u64, usize, usize, Res)> = Vec::new();
+        let mut t_end = 0u64;
+        for (si, s) in svcs.iter().enumerate() {
+            if let Some((els, end)) = &s.stream {
+                let mut t = 0;
+                for (j, (d, r)) in els.iter().enumerate() {
+                    t += d;
+                    when.push((t, si, j, *r));
+                }
+                t_end = t_end.max(t + end);
+            }
+        }
+        when.sort_by_key(|w| (w.0, w.1, w.2));
+        let (seen, ans, fin) = rt.block_on(async {
+            let reg = AddressLookupServices::default();
+            for s in svcs {
+                let script = match &s.stream {
+                    None => Script::Decline,
+                    Some((els, end)) => Script::Timed(els.clone(), *end),
+                };
+                reg.add(Svc { script, resolve_calls: Arc::new(AtomicUsize::new(0)), polled_after_end: Arc::new(AtomicUsize::new(0)) });
+            }
+            let start = tokio::time::Instant::now();
+            let mut d = ResolveDriver::new(eid(), reg);
+            let mut rx = d.resolve_remote(Default::default());
+            let mut seen: Vec<(u64, LookupPoll)> = Vec::new();
+            let mut ans: Option<(u64, Reply)> = None;
+            for _ in 0..(t_end as usize + when.len() + 8) * 2 {
+                let kind = d.poll_address_lookup();
+                let t = start.elapsed().as_millis() as u64;
+                if ans.is_none() {
+                    if let Some(r) = take_reply(&mut rx) {
+                        ans = Some((t, r));
+                    }
+                }
+                match kind {
+                    LookupPoll::NotRunning => break,
+                    LookupPoll::Pending => tokio::time::sleep(Duration::from_millis(1)).await,
+                    k => seen.push((t, k)),
+                }
+            }
+            let fin = format!(
+                "paths={} lookup={} pending={}",
+                d.paths().len(),
+                d.address_lookup_running() as u8,
+                d.pending_resolve_requests()
+            );
+            (seen, ans, fin)
+        });
+        // ---- oracle ----
+        let usable = |r: &Res| match r {
+            Res::Item(id) => content.get(id).is_some_and(|(a, w)| !*w && !a.is_empty()),
+            Res::Err(_) => false,
+        };
+        let items: Vec<u64> = when.iter().filter(|w| matches!(w.3, Res::Item(_))).map(|w| w.0).collect();
+        let got_items: Vec<u64> = seen.iter().filter(|s| s.1 == LookupPoll::Item).map(|s| s.0).collect();
+        if items != got_items {
+            ex.violation("items-not-all-handled", format!("items due at {items:?}, handled at {got_items:?}"));
+        }
+        let errs: Vec<u64> = when.iter().filter_map(|w| if let Res::Err(e) = w.3 { Some(e) } else { None }).collect();
+        let want = match when.iter().find(|w| usable(&w.3)) {
+            Some(w) => (w.0, Reply::Ok),
+            None if svcs.is_empty() => (0, Reply::NoService),
+            None if !items.is_empty() => (t_end, Reply::NoResults(vec![])),
+            None => (t_end, Reply::NoResults(errs.clone())),
+        };
+        // carried errors: same-instant order is the merge's business; compare as the canonical order
+        let canon = |r: &Reply| match r {
+            Reply::NoResults(es) => {
+                let mut es = es.clone();
+                es.sort_by_key(|e| when.iter().position(|w| w.3 == Res::Err(*e)).unwrap_or(usize::MAX));
+                Reply::NoResults(es)
+            }
+            r => r.clone(),
+        };
+        match &ans {
+            None => ex.violation("never-answered", "the lookup is over, the connect is still waiting"),
+            Some((t, r)) => {
+                if (*t, canon(r)) != want {
+                    ex.violation("wrong-answer", format!("got {}:{}, expected {}:{}", t, r.tok(), want.0, want.1.tok()));
+                }
+            }
+        }
+        let toks: Vec<String> = seen.iter().map(|(t, k)| format!("{t}:{}", kind_tok(*k))).collect();
+        ex.out = format!(
+            "{} | ans={} | {fin}",
+            toks.join(","),
+            ans.as_ref().map_or("none".into(), |(t, r)| format!("{t}:{}", canon(r).tok()))
+        );
+        ex.nontrivial = !when.is_empty();
+        ex.tags.push(format!("RT-{}", ans.map_or("unanswered".into(), |r| r.1.tok().split('[').next().unwrap().to_string())));
+        CONTENT.with(|c| c.borrow_mut().clear());
         ex
     }
 
@@ -858,8 +1252,137 @@ impl Prop for C29 {
             kept.extend(out[fixed..].iter().step_by(keep_every).cloned());
             *out = kept;
         }
+        // ---- the stream feeding the real resolve plumbing (R / RT) ----
+        for p in [
+            "R - -",
+            "R - p,0",
+            "RT -",
+            "R D -",
+            "R D/D p",
+            "RT D",
+            "R S: 0",
+            "RT S:$4",
+            "R S:i1=4 0,0",
+            "R S:i1w=4 0,0",
+            "R S:i1 0,0",
+            "R S:e1 0,0",
+            "R S:e1/S:e2/D 1,0,1,0",
+            "R S:e9/S:i1w=4,i2,i3=4.7,i5=8 0,1,p,1,1,1,1,0",
+            "R S:i1=4/S:e2 0,1,1,0",
+            "R S:e2/S:i1=3.7.11 0,0,1,1",
+            "R S:i1=4,i2=4,i3=8/S:i4=4 0,1,0,0,0,1",
+            "RT S:e9@2,$3/S:i1w=4@1,i3=4.7@5,$0",
+            "RT S:e1@0,$0/S:e2@0,$0/S:i3=5@0,$0",
+            "RT S:e1@3,$0/S:e2@3,$3/D",
+            "RT S:i1w=4@2,i2@2,$1",
+            // malformed
+            "R S:i1= 0",
+            "R S:e1=4 0",
+            "R S:i1=4.x 0",
+            "R S:iw=4 0",
+            "RT S:i1=4@",
+        ] {
+            out.push(p.to_string());
+        }
+        // small scope: every list of <= 2 content shapes, every complete interleaving (capped)
+        const RSHAPES: [&str; 12] = ["D", "", "u", "w", "o", "e", "eu", "ue", "wu", "ou", "ee", "we"];
+        let mut rsets: Vec<Vec<&str>> = RSHAPES.iter().map(|s| vec![*s]).collect();
+        for a in RSHAPES {
+            for b in RSHAPES {
+                rsets.push(vec![a, b]);
+            }
+        }
+        for shapes in &rsets {
+            let mut id = 0u64;
+            let mut counts: Vec<usize> = Vec::new();
+            let mut idx: Vec<usize> = Vec::new();
+            let svc_toks: Vec<String> = shapes
+                .iter()
+                .enumerate()
+                .map(|(k, sh)| {
+                    if *sh == "D" {
+                        return "D".to_string();
+                    }
+                    idx.push(k);
+                    counts.push(sh.len() + 1);
+                    let els: Vec<String> = sh
+                        .chars()
+                        .map(|c| {
+                            id += 1;
+                            match c {
+                                'u' => format!("i{id}={}.{}", 4 * id, 4 * id + 3),
+                                'w' => format!("i{id}w={}", 4 * id + 1),
+                                'o' => format!("i{id}"),
+                                _ => format!("e{id}"),
+                            }
+                        })
+                        .collect();
+                    format!("S:{}", els.join(","))
+                })
+                .collect();
+            let cap = if tier == Tier::Thorough { 80 } else { 6 };
+            let scheds: Vec<Vec<usize>> = match all_interleavings(&counts, cap) {
+                Some(v) => v,
+                None => (0..cap / 2)
+                    .map(|_| {
+                        let mut v: Vec<usize> = counts.iter().enumerate().flat_map(|(i, c)| std::iter::repeat_n(i, *c)).collect();
+                        rng.shuffle(&mut v);
+                        v
+                    })
+                    .collect(),
+            };
+            for sc in scheds {
+                let steps: Vec<Option<usize>> = sc.iter().map(|i| Some(idx[*i])).collect();
+                out.push(format!("R {} {}", svc_toks.join("/"), fmt_sched(&steps)));
+            }
+        }
+        let with_content = |rng: &mut Rng, svcs: &[SvcSpec], timed: bool| -> String {
+            if svcs.is_empty() {
+                return "-".into();
+            }
+            svcs.iter()
+                .map(|s| match &s.stream {
+                    None => "D".to_string(),
+                    Some((els, end)) => {
+                        let mut parts: Vec<String> = els
+                            .iter()
+                            .map(|(d, r)| {
+                                let d = (*d).min(30);
+                                let body = match r {
+                                    Res::Err(e) => format!("e{e}"),
+                                    Res::Item(i) => match rng.below(6) {
+                                        0 => format!("i{i}"),
+                                        1 | 2 => format!("i{i}w={}", rng.below(16)),
+                                        _ => {
+                                            let n = rng.range(1, 3);
+                                            let a: Vec<String> = (0..n).map(|_| rng.below(24).to_string()).collect();
+                                            format!("i{i}={}", a.join("."))
+                                        }
+                                    },
+                                };
+                                if timed { format!("{body}@{d}") } else { body }
+                            })
+                            .collect();
+                        if timed {
+                            parts.push(format!("${}", (*end).min(30)));
+                        }
+                        format!("S:{}", parts.join(","))
+                    }
+                })
+                .collect::<Vec<_>>()
+                .join("/")
+        };
         while out.len() < n {
-            if rng.chance(2, 5) {
+            if rng.chance(1, 3) {
+                if rng.chance(1, 3) {
+                    let svcs = random_services(rng, true);
+                    out.push(format!("RT {}", with_content(rng, &svcs, true)));
+                } else {
+                    let svcs = random_services(rng, false);
+                    let sched = random_sched(rng, &svcs);
+                    out.push(format!("R {} {}", with_content(rng, &svcs, false), fmt_sched(&sched)));
+                }
+            } else if rng.chance(2, 5) {
                 let svcs = random_services(rng, true);
                 out.push(format!("T {}", fmt_services(&svcs, true)));
             } else {
@@ -876,6 +1399,14 @@ impl Prop for C29 {
             ["P", sv, sc] => match (parse_services(sv), parse_sched(sc)) {
                 (Some(svcs), Some(sched)) => self.run_sched(&svcs, &sched),
                 _ => Exec::new("bad-payload").tag("malformed"),
+            },
+            ["R", sv, sc] => match (parse_services_r(sv), parse_sched(sc)) {
+                (Some((svcs, content)), Some(sched)) => self.run_resolve_sched(&svcs, content, &sched),
+                _ => Exec::new("bad-payload").tag("malformed"),
+            },
+            ["RT", sv] => match parse_services_r(sv) {
+                Some((svcs, content)) => self.run_resolve_timed(&svcs, content),
+                None => Exec::new("bad-payload").tag("malformed"),
             },
             ["T", sv] => match parse_services(sv) {
                 Some(svcs) => self.run_timed(&svcs),
